@@ -1431,7 +1431,9 @@ package mcp
 //@   assert at call send:c.incoming: @nothing-is-dispatched-after-an-error-reply calls(t4) == 0 && calls(t9) == 0
 //@   track http.Error as t9
 //@   loop 3: invariant @ids-seen-so-far-are-not-in-flight c.requestStreams == at(locked_cmu_1, c.requestStreams) && (forall id jsonrpc2.ID :: {inDom(c.requestStreams, id)} (id in $visited) ==> !inDom(c.requestStreams, id)) && (forall id jsonrpc2.ID :: {inDom(c.requestStreams, id)} inDom(c.requestStreams, id) <==> at(locked_cmu_1, inDom(c.requestStreams, id)))
-//@   loop 4: invariant @only-fresh-ids-get-routes c.requestStreams == at(locked_cmu_1, c.requestStreams) && (forall id jsonrpc2.ID :: {inDom(local(calls), id)} inDom(local(calls), id) ==> !at(locked_cmu_1, inDom(c.requestStreams, id))) && (forall id jsonrpc2.ID :: {rawGet(c.requestStreams, id)} at(locked_cmu_1, inDom(c.requestStreams, id)) ==> inDom(c.requestStreams, id) && rawGet(c.requestStreams, id) == at(locked_cmu_1, rawGet(c.requestStreams, id)))
+//@   loop 4: invariant @the-route-table-is-the-one-locked c.requestStreams == at(locked_cmu_1, c.requestStreams)
+//@   loop 4: invariant @ids-of-this-post-were-not-in-flight forall id jsonrpc2.ID :: {inDom(local(calls), id)} inDom(local(calls), id) ==> !at(locked_cmu_1, inDom(c.requestStreams, id))
+//@   loop 4: invariant @only-fresh-ids-get-routes forall id jsonrpc2.ID :: {rawGet(c.requestStreams, id)} at(locked_cmu_1, inDom(c.requestStreams, id)) ==> inDom(c.requestStreams, id) && rawGet(c.requestStreams, id) == at(locked_cmu_1, rawGet(c.requestStreams, id))
 
 // ---------------------------------------------------------------------------------------------
 // C09: the streamable client's SSE loop
